@@ -75,7 +75,18 @@ func (pad iso9797M3Padding) Unpad(src []byte) ([]byte, error) {
 	if bits/8 > uint64(srcLen-pad.BlockSize()) {
 		return nil, errors.New("padding: invalid padding header")
 	}
+	if bits%8 != 0 {
+		return nil, errors.New("padding: invalid padding header")
+	}
 	dstLen := int(bits / 8)
+	// Pad emits the minimal positive number of data blocks
+	dataLen := (dstLen + pad.BlockSize() - 1) / pad.BlockSize() * pad.BlockSize()
+	if dataLen == 0 {
+		dataLen = pad.BlockSize()
+	}
+	if srcLen-pad.BlockSize() != dataLen {
+		return nil, errors.New("padding: invalid src length")
+	}
 	padded := src[pad.BlockSize()+dstLen:]
 	for _, b := range padded {
 		if b != 0 {
